@@ -6,6 +6,7 @@ import (
 	"fmt"
 	"os"
 	"path/filepath"
+	"regexp"
 	"sort"
 	"strings"
 	"testing"
@@ -172,11 +173,59 @@ func render(e *envT, c Case) []byte {
 			return "`touch " + e.canaryPath(i) + "`"
 		case 1:
 			return def + " `touch " + e.canaryPath(i) + "`"
-		default:
+		case 2:
 			return def + "${VERIF_CANARY_REF}"
+		default:
+			// a reference to a key that the same env block defines further
+			// down (or at all), next to a substitution: resolving entries in
+			// dependency order needs a second pass over the block
+			return "${" + laterEnvKey(c.Choice, field) + "}" + def + " `touch " + e.canaryPath(i) + "`"
 		}
 	})
 	return yamlgen.Marshal(m)
+}
+
+var envKeyRe = regexp.MustCompile(`GEN_ENV_(\d+)$`)
+
+// laterEnvKey names an env key of the definition declared after the field's
+// own entry (cyclically), or the last one for fields outside the env block.
+func laterEnvKey(ch yamlgen.Choice, field string) string {
+	n := ch.NEnv
+	if n <= 0 || ch.EnvForm == 0 {
+		return "VERIF_CANARY_REF"
+	}
+	if m := envKeyRe.FindStringSubmatch(field); m != nil {
+		var i int
+		fmt.Sscanf(m[1], "%d", &i)
+		return fmt.Sprintf("GEN_ENV_%d", (i+1)%n)
+	}
+	return fmt.Sprintf("GEN_ENV_%d", n-1)
+}
+
+var identRe = regexp.MustCompile(`[A-Za-z_][A-Za-z0-9_]*`)
+
+// plantSentinels pre-populates the environment with every identifier the
+// definition mentions (env keys, parameter names, output names, referenced
+// variables …) and with the positional names 1..9, so that a non-executing
+// load that overwrites OR deletes one of them is visible in the environment
+// diff. Names that already exist (PATH, HOME …) are left alone.
+func plantSentinels(data []byte) {
+	for i := 1; i <= 9; i++ {
+		k := fmt.Sprint(i)
+		if _, ok := os.LookupEnv(k); !ok {
+			os.Setenv(k, "verif-sentinel-positional-"+k)
+		}
+	}
+	seen := map[string]bool{}
+	for _, id := range identRe.FindAllString(string(data), -1) {
+		if seen[id] || len(id) > 40 {
+			continue
+		}
+		seen[id] = true
+		if _, ok := os.LookupEnv(id); !ok {
+			os.Setenv(id, "verif-sentinel:"+id)
+		}
+	}
 }
 
 // runOne loads the definition through one entry point and judges.
@@ -189,6 +238,8 @@ func runOne(e *envT, c Case, ent entry) string {
 	if err := os.WriteFile(e.file, data, 0o644); err != nil {
 		return "harness: " + err.Error()
 	}
+	pristine := environ()
+	plantSentinels(data)
 	before := environ()
 	func() {
 		defer func() { _ = recover() }() // crashes are C13's business
@@ -209,7 +260,7 @@ func runOne(e *envT, c Case, ent entry) string {
 	} else if d := envDiff(before, after); d != "" {
 		msg = fmt.Sprintf("%s altered the environment of the loading process: %s", ent.name, d)
 	}
-	restoreEnv(before)
+	restoreEnv(pristine)
 	return msg
 }
 
@@ -300,7 +351,7 @@ func TestCatalogue(t *testing.T) {
 	for _, ch := range maximalChoices() {
 		for _, f := range yamlgen.Fields(ch) {
 			nFields[f] = true
-			for kind := 0; kind < 3; kind++ {
+			for kind := 0; kind < 4; kind++ {
 				i++
 				if i%nsh != shard {
 					continue
@@ -324,7 +375,7 @@ func TestCatalogue(t *testing.T) {
 	}
 	rep.Label("positive-control-ok")
 	if shard == 0 {
-		rep.ExhaustiveSpace(fmt.Sprintf("catalogue of %d string-valued fields x %d entry points x 3 canary kinds over 3 maximal definitions", len(nFields), len(entries)))
+		rep.ExhaustiveSpace(fmt.Sprintf("catalogue of %d string-valued fields x %d entry points x 4 canary kinds over 3 maximal definitions", len(nFields), len(entries)))
 		rep.Sample(map[string]any{"field": "steps[0].preconditions[0].condition", "entry": "DAGStore.UpdateSpec", "yaml": string(render(e, Case{Choice: ch, Fields: []string{"steps[0].preconditions[0].condition"}, Kind: 0}))[:600]})
 	}
 }
@@ -338,7 +389,7 @@ func TestProp(t *testing.T) {
 		if n > len(sel) {
 			n = len(sel)
 		}
-		c := Case{Choice: ch, Fields: sel[:n], Kind: rapid.IntRange(0, 2).Draw(t, "kind")}
+		c := Case{Choice: ch, Fields: sel[:n], Kind: rapid.IntRange(0, 3).Draw(t, "kind")}
 		c.Entry = rapid.SampledFrom(entries).Draw(t, "entry").name
 		evalCase(t, c, "random", false)
 	})
